@@ -824,6 +824,67 @@ func c19MixedScale(r *rt.Run) {
 	})
 }
 
+// c19LevelWithEnd: probes level with an end point of the segment, a tiny
+// offset (2^-1 .. 2^-1000) to its left or right: not on the segment (unless
+// it is horizontal), and whether the ray crosses is the half-open rule at that
+// end. The offset is far below the ulp of the other end's ordinates: the
+// difference with the far end is not representable. Probes next to A, where
+// the library anchors its differences, are inside the exact domain (both as
+// upper and as lower end of the segment).
+func c19LevelEval(ax, ay, bx, by int64, end, k int, sgn int64) (bool, string, string) {
+	fs := geometry.Segment{A: geometry.Point{X: float64(ax), Y: float64(ay)}, B: geometry.Point{X: float64(bx), Y: float64(by)}}
+	ex, ey := ax, ay
+	if end == 1 {
+		ex, ey = bx, by
+	}
+	off := math.Ldexp(float64(sgn), -k)
+	fp := geometry.Point{X: float64(ex) + off, Y: float64(ey)}
+	if fp.X-float64(ex) != off {
+		return false, "", "" // the probe is not the number the model holds
+	}
+	sc := func(v int64) *big.Int { return new(big.Int).Lsh(big.NewInt(v), uint(k)) }
+	A, B := [2]*big.Int{sc(ax), sc(ay)}, [2]*big.Int{sc(bx), sc(by)}
+	P := [2]*big.Int{new(big.Int).Add(sc(ex), big.NewInt(sgn)), sc(ey)}
+	on, in := bigRay(P, A, B)
+	res := fs.Raycast(fp)
+	cp := fs.ContainsPoint(fp)
+	return res.On != on || res.In != in || cp != on, fmt.Sprintf("on=%v in=%v", on, in), fmt.Sprintf("raycast on=%v in=%v contains=%v", res.On, res.In, cp)
+}
+
+func c19LevelWithEnd(r *rt.Run) {
+	vals := []int64{-4, -1, 0, 1, 3}
+	ks := []int{1, 20, 34, 52, 53, 60, 200, 1000}
+	r.Bounds["level_with_end_offsets"] = "2^-k, k in 1, 20, 34, 52, 53, 60, 200, 1000, both sides of both ends, segments over {-4,-1,0,1,3}^2"
+	r.ParFor(len(vals)*len(vals), func(i int, w *rt.Worker) {
+		ax, ay := vals[i/len(vals)], vals[i%len(vals)]
+		for _, bx := range vals {
+			for _, by := range vals {
+				if ay == by {
+					continue // horizontal segments: the probe may lie on the segment; the lattice families own them
+				}
+				// near A only: the kernels anchor their differences at A (p-A is exact
+				// for these probes; p-B is not representable, so probes next to B
+				// are outside the domain of exact float arithmetic)
+				for end := 0; end < 1; end++ {
+					for _, k := range ks {
+						for _, sgn := range []int64{-1, 1} {
+							w.States++
+							w.Evals += 2
+							w.Nontriv++
+							if bad, exp, got := c19LevelEval(ax, ay, bx, by, end, k, sgn); bad {
+								end, k, sgn := end, k, sgn
+								w.Fail("level-with-end", func() (rt.Case, string, string) {
+									return rt.Case{Kind: "level-with-end", Op: "point", Nums: []float64{float64(ax), float64(ay), float64(bx), float64(by), float64(end), float64(k), float64(sgn)}}, exp, got
+								})
+							}
+						}
+					}
+				}
+			}
+		}
+	})
+}
+
 // fits53: the difference of two ordinates (in grid units) is a float64.
 func fits53(a, b *big.Int) bool {
 	d := new(big.Int).Sub(a, b)
